@@ -94,12 +94,23 @@ def explore(ctx, extended=False, focus=None):
     twins = [twin(c, ctx.rnd, invalid=(i % 2 == 1)) for i, c in enumerate(base)]
     ra = execute_all(base)
     rb = execute_all(twins, with_model=False)
-    for a, b in zip(ra, rb):
+    # second chance: a pair in which either run raised is re-run with error checking off in BOTH runs (the theorem relates runs
+    # whatever their error-suppression flags are); what still raises (type errors, zero divisors) is skipped
+    retry = [i for i, (a, b) in enumerate(zip(ra, rb)) if not (a.ok and b.ok) and not a.harness_error and not b.harness_error]
+    def ign(c):
+        c2 = progs.Case(c.cid + "!", dict(c.cfg), c.instrs, c.meta); c2.cfg["ign"] = 1
+        return c2
+    ra2 = execute_all([ign(base[i]) for i in retry], with_model=False)
+    rb2 = execute_all([ign(twins[i]) for i in retry], with_model=False)
+    second = {i: (x, y) for i, x, y in zip(retry, ra2, rb2)}
+    for i, (a, b) in enumerate(zip(ra, rb)):
         account(ex, a)
         correspond(ex, a, LEVELS)
         mode = "invalid-ignore" if b.case.cfg["ign"] and not a.case.cfg["ign"] else "valid"
         if b.harness_error:
             raise common.Infra(b.py_raw[:500])
+        if i in second and second[i][0].ok and second[i][1].ok:
+            a, b = second[i]; mode = "both-ignore"
         if not (a.ok and b.ok):
             ex.count("pair:skipped-raise")
             continue
